@@ -15,7 +15,7 @@ from checks.common.cases import explore_cases
 PROP = 'C15'
 LEVEL = 'exploration'
 SHARDS = {'quick': 4, 'thorough': 16}
-BUDGET_S = {'quick': 30, 'thorough': 300}
+BUDGET_S = {'quick': 150, 'thorough': 300}
 RULE = ('generated (start, stop, count, factor, jitter, random-source) tuples: start in {0, tiny, ...}, stop '
         'in (0,1) and >= 1 and start*factor**n nudged by -2..+2 ulps, factor in [1, 10], count None/0/1/n/'
         '"repeat", jitter in {-1,-0.5,0,0.3,1,True}, plus invalid parameters; every clause of the statement '
@@ -224,7 +224,7 @@ def gen(r):
 
 
 def run(ctx):
-    explore_cases(ctx, gen, check, {'quick': 15000, 'thorough': 150000}[ctx.tier], 'backoff')
+    explore_cases(ctx, gen, check, {'quick': 30000, 'thorough': 300000}[ctx.tier], 'backoff')
 
 
 def replay(witness):
